@@ -5,10 +5,10 @@ package main
 
 import (
 	"fmt"
-	"os"
 	"go/constant"
 	"go/token"
 	"go/types"
+	"os"
 	"strings"
 
 	"golang.org/x/tools/go/ssa"
@@ -158,45 +158,48 @@ type Exec struct {
 	noInline     map[*ssa.Function]bool // functions that must not be inlined (havocked instead; refutation only)
 
 	// statistics
-	inlined int
-	applied int
+	inlined      int
+	applied      int
 	appliedNames map[string]int
 
 	// index terms at which base (unknown) arrays were read; for model extraction
 	reads map[string][]*Term
 
-	stack []*ssa.Function
+	stack   []*ssa.Function
 	safetyN map[string]int
 
 	// spawned closures (go statements)
 	spawned []*FuncV
 
-	dbgDone   bool
-	curHeapA, curHeapB Heap            // the two heaps being merged (for values that need their objects' contents)
-	pendingObjs map[*Object]Value      // objects created by a merge, added to the merged heap
-	strHeap   map[*Object]*Term // immutable string contents created by merges (strings never change)
-	curHeapForStr Heap
-	opaqueIds map[string]uint64
-	events    []callEvent
-	unmodelledWritten map[string]bool
-	retCond   *Term // disjunction of the path conditions of the returns of the last completed run
-	asserts   map[string][2]Value
-	assertHeap Heap
-	curArgs   [][]Value
-	curEntry  []Heap
-	iters     []*IterV
-	curFacts  map[*Term]*Term
-	seedFacts map[*Term]*Term // facts implied by the hypotheses of the case (each is also an obligation of the split's own lemma)
-	notApplicable []string
-	gobj      *Object
-	globals   map[*ssa.Global]*Object
-	initDone  map[*ssa.Package]bool
-	inInit    bool
-	inSpec    int
-	seq       int
-	logCalls  int
-	stubsUsed map[string]bool
-	freeBind  []map[ssa.Value]Value
+	dbgDone            bool
+	inlinedFns         map[string]bool
+	realStdlib         map[string]bool // external functions whose real body is executed (model-validation obligations)
+	modelsUsed         map[string]bool
+	curHeapA, curHeapB Heap              // the two heaps being merged (for values that need their objects' contents)
+	pendingObjs        map[*Object]Value // objects created by a merge, added to the merged heap
+	strHeap            map[*Object]*Term // immutable string contents created by merges (strings never change)
+	curHeapForStr      Heap
+	opaqueIds          map[string]uint64
+	events             []callEvent
+	unmodelledWritten  map[string]bool
+	retCond            *Term // disjunction of the path conditions of the returns of the last completed run
+	asserts            map[string][2]Value
+	assertHeap         Heap
+	curArgs            [][]Value
+	curEntry           []Heap
+	iters              []*IterV
+	curFacts           map[*Term]*Term
+	seedFacts          map[*Term]*Term // facts implied by the hypotheses of the case (each is also an obligation of the split's own lemma)
+	notApplicable      []string
+	gobj               *Object
+	globals            map[*ssa.Global]*Object
+	initDone           map[*ssa.Package]bool
+	inInit             bool
+	inSpec             int
+	seq                int
+	logCalls           int
+	stubsUsed          map[string]bool
+	freeBind           []map[ssa.Value]Value
 
 	// hook for interface calls on opaque values not covered by the built-in rules
 	invokeHook func(x *Exec, recv *IfaceV, method string, args []Value, st *State, pc *Term) (Value, bool)
